@@ -3,6 +3,7 @@ import re
 from vflib import thir as T, tables
 from vflib.terms import Evaluator, Tm, subterms
 from spec import tables as SPEC
+from rules import shared
 
 META = {
     "level": "other",
@@ -460,9 +461,9 @@ def r4(prog, ev, rep, helper):
                 ka, xa = view_of(leaf.a[1]); kb, xb = view_of(leaf.a[2])
                 if not (ka == kb == "num" and xa | xb == {a0, a1} and xa != xb):
                     problems.append("`==` does not compare the numeric views of the two operands: `%s`" % leaf)
-        rep.check(not problems, "C04-R4", "%s|numeric-eq" % helper, prog.loc_of(helper), "== of the two numeric views", "; ".join(problems))
+        rep.check(not problems, "C04-R4", "%s|numeric-eq" % shared.rk(prog, ev, helper), prog.loc_of(helper), "== of the two numeric views", "; ".join(problems))
     if not found:
-        rep.unrecognised("C04-R4", "%s|numeric-eq" % helper, prog.loc_of(helper),
+        rep.unrecognised("C04-R4", "%s|numeric-eq" % shared.rk(prog, ev, helper), prog.loc_of(helper),
                          "no branch on `both operands have a numeric view (as_f64/as_i64)` found in the value-equality helper: "
                          "1 == 1.0 cannot hold")
 
@@ -573,7 +574,7 @@ def r6(prog, ev, rep, helper, eq_fn):
                 g = x.get("gargs") or []
                 if g and re.fullmatch(r"&*(?:'\w+ )?T", g[0]):
                     n += 1
-                    rep.bad("C04-R6", "%s|PartialEq<T>" % prog.owner_fn(p), T.loc(x),
+                    rep.bad("C04-R6", "%s|PartialEq<T>" % shared.rk(prog, ev, prog.owner_fn(p)), T.loc(x),
                             "structured values are compared with the data type's own `==`; inside arrays/objects numbers are "
                             "then not compared by mathematical value")
     rep.ok("C04-R6", "census", "-", "%d delegation site(s)" % n)
